@@ -623,6 +623,12 @@ def render_ts(case):
     elif place in ("after", "exported_after"):
         lines += [f"export const C = {call}"] + decls
         exports.append({"name": "C", "kind": "value"})
+    elif place == "dual_scope":
+        lines += decls + [f"export const C = {call}", "export function mk() {"]
+        lines += ["  " + ts_decl(d) for d in case["shadow"]]
+        lines += [f"  return {call}", "}"]
+        exports.append({"name": "C", "kind": "value"})
+        exports.append({"name": "mk", "kind": "thunk"})
     elif place in ("scoped", "scoped_shadowing"):
         if place == "scoped_shadowing":
             for d in case.get("decls", []):
